@@ -376,6 +376,13 @@ def errprop(e, env, H: Helpers, lemmas=None, total=False):
         elif op == 'cast' and X.is_float(n.ty) and X.is_float(n.args[0].ty):
             Va, Ea, Ra = rec(n.args[0])
             r = (Va, Ea, Ra) if n.args[0].ty[1] <= n.ty[1] else fin(Va, Ea + rnd(Ra), rounded(Ra))
+        elif op == 'select' and _as_minmax(n) is not None:
+            # select(x > k, k, x) is min(x, k) (1-Lipschitz: the error does not grow, whichever branches are taken)
+            kind, xn, kn = _as_minmax(n)
+            (Va, Ea, Ra), (Vb, Eb, Rb) = rec(xn), rec(kn)
+            f = max if kind == 'max' else min
+            V = I(f(Va.lo, Vb.lo), f(Va.hi, Vb.hi)); D = I(f(Ra.lo, Rb.lo), f(Ra.hi, Rb.hi))
+            r = fin(V, I(min(Ea.lo, Eb.lo, 0.0), max(Ea.hi, Eb.hi, 0.0)), D)
         elif op == 'select':
             ci, cr = cond(n.args[0])
             if ci is True and cr is True: r = rec(n.args[1])
@@ -469,6 +476,22 @@ def errprop(e, env, H: Helpers, lemmas=None, total=False):
         cache[n.id] = r
         return r
     return rec(e)
+
+def _as_minmax(n):
+    """('min'|'max', x, k) when the select is  x > k ? k : x  (min)  or  x < k ? k : x  (max), k constant; NaN x passes through in both readings"""
+    c, a, b = n.args
+    if c.op not in ('lt', 'le', 'gt', 'ge'):
+        return None
+    p, q = c.args
+    op = c.op
+    if p.is_const and not q.is_const:
+        p, q = q, p
+        op = {'lt': 'gt', 'le': 'ge', 'gt': 'lt', 'ge': 'le'}[op]
+    if not q.is_const:
+        return None
+    if a.is_const and a.val == q.val and b is p:
+        return ('min' if op in ('gt', 'ge') else 'max', p, q)
+    return None
 
 def _clip_by_cond(c, branch, taken):
     """interval that `branch` is confined to when it is the tested operand of the comparison c against a constant"""
@@ -609,3 +632,48 @@ def certified_app_hook(H: Helpers):
             pass
         return generic()
     return hook
+
+def sup_error_nd(e, atoms, H, box, target, max_boxes=20000, lemmas=None, feasible=None, min_width=1e-9):
+    """upper bound of sup |computed - ideal| of e over an n-dimensional box (list of (lo, hi) per atom), restricted to
+    the boxes for which feasible(env) is not False; best-first branch and bound splitting the widest side.
+    returns (upper, boxes, worst box, last failure message)"""
+    import heapq, itertools
+    last = ['']
+    cnt = itertools.count()
+    def bound(bx):
+        env = {a.id: I(lo, hi) for a, (lo, hi) in zip(atoms, bx)}
+        if feasible is not None and feasible(env) is False:
+            return None
+        try:
+            V, E, R = errprop(e, env, H, lemmas)
+        except (ZeroDivisionError, OverflowError, Unsupported) as ex:
+            last[0] = str(ex)
+            return INF
+        return E.mag if E.mag == E.mag else INF
+    b0 = bound(box)
+    if b0 is None:
+        return 0.0, 0, None, ''
+    heap = [(-b0, next(cnt), box)]
+    n = 0
+    done = 0.0
+    worst = None
+    while heap and n < max_boxes:
+        nb, _, bx = heap[0]
+        if -nb <= target:
+            break
+        heapq.heappop(heap)
+        n += 1
+        widths = [hi - lo for lo, hi in bx]
+        j = max(range(len(bx)), key=lambda i: widths[i])
+        if widths[j] < min_width:
+            done = max(done, -nb); worst = bx
+            continue
+        lo, hi = bx[j]; m = (lo + hi) / 2
+        for part in ((lo, m), (m, hi)):
+            nbx = list(bx); nbx[j] = part
+            b = bound(nbx)
+            if b is not None:
+                heapq.heappush(heap, (-b, next(cnt), nbx))
+    top = -heap[0][0] if heap else 0.0
+    if heap and top > done: worst = heap[0][2]
+    return max(done, top), n, worst, last[0]
